@@ -167,7 +167,7 @@ func c17Component(r *vkit.Report, name string, proofPtr any, honest []*big.Int, 
 			// it was, so the size bound on the response - what makes it a range proof - must be what rejects it
 			// (the bound is a bit length a little above that of honest responses: shift far beyond it)
 			muts = append(muts, mut{"+order<<(len+64)", new(big.Int).Add(orig, new(big.Int).Lsh(c17Order, uint(orig.BitLen())+64))},
-	mut{"-order<<(len+64)", new(big.Int).Sub(orig, new(big.Int).Lsh(c17Order, uint(orig.BitLen())+64))})
+				mut{"-order<<(len+64)", new(big.Int).Sub(orig, new(big.Int).Lsh(c17Order, uint(orig.BitLen())+64))})
 		}
 		if li+1 < len(leaves) {
 			if nx := leaves[li+1].get(); nx != nil && nx.Cmp(orig) != 0 {
